@@ -41,6 +41,7 @@ pub fn sections(ctx: &Ctx) -> Vec<(&'static str, u64)> {
         ("w5", w5),
         ("w5-tokens", w5t),
         ("w2-tokens", w2t),
+        ("w2-tails", crate::w2::TAILS.len() as u64 * 3),
     ]
 }
 
@@ -100,6 +101,10 @@ pub fn cases(ctx: &Ctx, section: &str, i: u64) -> Vec<Case> {
             // differ in schedule. Alternates corpus and generated graphs.
             let (label, fs, task) = crate::c08::faulted_scenario(ctx, &mut rng.sub("w4"), i);
             vec![det_case(&label, fs, task, &ctx.corpus, &mut rng, s.min(4))]
+        }
+        "w2-tails" => {
+            let (label, fs, task) = crate::w2::tail_scenario((i / 3) as usize, (i % 3) as usize);
+            vec![det_case(&label, fs, task, &ctx.corpus, &mut rng, s)]
         }
         "w2-tokens" => {
             let (label, fs, task) = crate::w2::scenario(&mut rng.sub("w2"), i);
